@@ -346,6 +346,9 @@ def main(argv):
     import plans
     if len(argv) >= 3 and argv[1] == '--replay':
         return plans.replay(argv[2])
+    if len(argv) >= 2 and argv[1] == '--selftest':
+        import selftest
+        return 1 if (selftest.sany() or selftest.binding()) else 0
     if len(argv) < 3:
         print(__doc__)
         return 2
